@@ -63,11 +63,23 @@ def sortQ : List Rat → List Rat
   | [] => []
   | a :: l => insertQ a (sortQ l)
 
-/-- `sorted(list(set(...)))`: the set merges values that are *equal*, nothing else -/
-def frequencyComponents (cs : List FComp) (wmax : Rat) : Except Err (List Rat) :=
+/-- the merge loop of `frequency_components` (after fix 6e56e9e) over the sorted list, written
+with the last kept frequency carried along: a frequency is kept iff it exceeds the previously
+*kept* one by more than the resolution -/
+def mergeFrom (wres last : Rat) : List Rat → List Rat
+  | [] => []
+  | w :: l => if w - last > wres then w :: mergeFrom wres w l else mergeFrom wres last l
+
+/-- `distinct_frequencies` -/
+def mergeRes (wres : Rat) : List Rat → List Rat
+  | [] => []
+  | w :: l => w :: mergeFrom wres w l
+
+/-- `frequency_components(circuit, w_max, w_resolution)` -/
+def frequencyComponents (cs : List FComp) (wmax : Rat) (wres : Rat := 1/1000) : Except Err (List Rat) :=
   match allFrequencies wmax cs with
   | .error e => .error e
-  | .ok l => .ok (sortQ (dedupL l))
+  | .ok l => .ok (mergeRes wres (sortQ l))
 
 /-! ### transformers.py: when is a source active at an analysed frequency -/
 
@@ -122,18 +134,25 @@ def timeValue (lines : List (GQ × Rat × Rat)) : Rat :=
 /-- one-sided series: `(np.array(self.w), np.array([sol.get_x(id) for sol in self._solutions]))` -/
 def oneSided (ws : List Rat) (X : List GQ) : List Rat × List GQ := (ws, X)
 
-/-- solution.py:117-119 *as written*: `1/2*np.concatenate((np.conj(S[-1:0:-1]), S))` is applied
-to an object array of `ComplexSolution` records, which supports neither `conj` nor `*`;
-only the empty frequency list survives -/
-def twoSidedAsWritten (ws : List Rat) : Except Err (List Rat) :=
-  if ws.isEmpty then .ok [] else .error .typeError
+/-- `ac = slice(1, None) if len(w) > 0 and w[0] == 0 else slice(0, None)`: how many leading
+entries are *not* mirrored (1 when a DC line is listed, else 0) -/
+def dcCount (ws : List Rat) : Nat :=
+  match ws with
+  | w :: _ => if w = 0 then 1 else 0
+  | [] => 0
 
-/-- `np.concatenate((-w[-1:0:-1], w))` -/
-def mirrorW (ws : List Rat) : List Rat := ((ws.drop 1).reverse.map fun w => -w) ++ ws
+/-- `np.concatenate((-w[ac][::-1], w))` (solution.py `_series`, after fix 0a2e57e) -/
+def mirrorW (ws : List Rat) : List Rat := ((ws.drop (dcCount ws)).reverse.map fun w => -w) ++ ws
 
-/-- the same two lines applied to the line values instead of the solution objects:
-`1/2*np.concatenate((np.conj(X[-1:0:-1]), X))` — the mirror the code describes -/
-def mirrorX (X : List GQ) : List GQ :=
-  (((X.drop 1).reverse.map GQ.conj) ++ X).map fun z => GQ.ofRat (1/2) * z
+/-- `np.concatenate((np.conj(X[ac][::-1])/2, X[:len(w)-len(w[ac])], X[ac]/2))` -/
+def mirrorX (ws : List Rat) (X : List GQ) : List GQ :=
+  let d := dcCount ws
+  ((X.drop d).reverse.map fun z => GQ.ofRat (1/2) * GQ.conj z)
+    ++ X.take (ws.length - (ws.drop d).length)
+    ++ (X.drop d).map fun z => GQ.ofRat (1/2) * z
+
+/-- `_series(values)` -/
+def series (oneSidedFlag : Bool) (ws : List Rat) (X : List GQ) : List Rat × List GQ :=
+  if oneSidedFlag then (ws, X) else (mirrorW ws, mirrorX ws X)
 
 end CC
